@@ -2,7 +2,7 @@
 # usage: tools/confirm_seeded.sh <name> ...   (name = dir under /tmp/seeded_out, e.g. C04_1)
 # Confirms in a scratch worktree: patch applies, demo fails with it, pinned suite still passes, demo passes without it.
 # On success copies patch.diff, demo.py, meta.json (+ what was run) to /verif/seeded/<name>/.
-WT=/tmp/wt/confirm_$$
+WT=/tmp/wtc/confirm_$$; mkdir -p /tmp/wtc
 git -C /repo worktree add -q --detach $WT HEAD || exit 2
 for n in "$@"; do
   D=/tmp/seeded_out/$n
